@@ -113,6 +113,12 @@ def run_config(res, n, d, fc, sc, ks, queries, stats):
     arg_types = [type(x).__name__ for x in forms]      # how (subdir cadence, file cadence, numerator, denominator) are passed
     set_prefix(rng.choice(PREFIXES))
     w = digital_rf.DigitalMetadataWriter(common.path_form(top), forms[0], forms[1], forms[2], forms[3], PREFIX)
+    # a reader opened on the channel while it is still empty (a monitor started together with the recorder): it must
+    # find every sample in the file the writer puts it in, like a reader opened afterwards
+    try:
+        rd_early = digital_rf.DigitalMetadataReader(common.path_form(top))
+    except Exception:  # noqa
+        rd_early = None
     i = 0
     while i < len(ks):
         m = rng.choice([1, 1, 2, 3, 5])
@@ -185,6 +191,16 @@ def run_config(res, n, d, fc, sc, ks, queries, stats):
         if keys != [k]:
             res.violation("reader-misses-sample" if got == [exp] else "writer-reader-disagree",
                           "read(k, k) does not return the written sample k", inp, [k], keys)
+        if rd_early is not None and t % 3 == 0:
+            res.count("point-read:reader-opened-on-the-empty-channel")
+            try:
+                fl2 = [os.path.relpath(p, top) for p in rd_early._get_file_list(k, k)]
+                keys2 = [int(x) for x in rd_early.read(k, k).keys()]
+            except Exception as e:  # noqa
+                fl2, keys2 = repr(e)[:120], None
+            if keys2 != [k]:
+                res.violation("early-reader-misses-sample", "a reader opened while the channel was still empty does not find the "
+                              "written sample k (it looks in %r)" % (fl2,), dict(inp, reader="opened before the first write"), [k], keys2)
     # ---- range queries
     sks = sorted(ks)
     for qi, (a, b) in enumerate(queries):
